@@ -23,15 +23,19 @@ VARIABLES enabled, threaded, started,   \* configuration as the calls made it
           opt,           \* ids the property no longer demands (control operation while pending)
           lostRep,       \* sum of the "N messages lost" reports
           cur,           \* call in progress, 0 = none
-          fin            \* qb_log_fini has returned
-fvars == <<enabled, threaded, started, called, size, backlog, written, mayDrop, mdu, opt, lostRep, cur, fin>>
+          fin,           \* qb_log_fini has returned
+          second,        \* a second threaded target exists: 0 = no, k+1 = opened when k messages had been logged;
+                         \* it is enabled and threaded from then on and selected by the same call sites
+          written2       \* ids written to it, in order of the writes
+fvars == <<enabled, threaded, started, called, size, backlog, written, mayDrop, mdu, opt, lostRep, cur, fin, second, written2>>
 
-OP_INIT == 1  OP_SETTHREADED == 2  OP_ENABLE == 3  OP_CONF == 4  OP_CLOSE == 5  OP_START == 6  OP_LOG == 7  OP_FINI == 8
+OP_INIT == 1  OP_SETTHREADED == 2  OP_ENABLE == 3  OP_CONF == 4  OP_CLOSE == 5  OP_START == 6  OP_LOG == 7  OP_FINI == 8  OP_SECOND == 9
 Range(s) == {s[i] : i \in DOMAIN s}
 PendingF == (1..called) \ Range(written)
 
 FInit == /\ enabled = FALSE /\ threaded = FALSE /\ started = FALSE /\ called = 0 /\ size = <<>> /\ backlog = 0
          /\ written = <<>> /\ mayDrop = {} /\ mdu = 0 /\ opt = {} /\ lostRep = 0 /\ cur = 0 /\ fin = FALSE
+         /\ second = 0 /\ written2 = <<>>
 
 Inv(op, arg, sz) ==
   /\ cur = 0 /\ cur' = op /\ ~fin
@@ -52,14 +56,15 @@ Inv(op, arg, sz) ==
             /\ UNCHANGED <<threaded, started, called, size, backlog, mayDrop, mdu>>
        [] op = OP_START ->
             /\ started' = TRUE /\ UNCHANGED <<enabled, threaded, called, size, backlog, mayDrop, mdu, opt>>
-       [] op \in {OP_INIT, OP_CONF, OP_FINI} ->
+       [] op \in {OP_INIT, OP_CONF, OP_FINI, OP_SECOND} ->
             UNCHANGED <<enabled, threaded, started, called, size, backlog, mayDrop, mdu, opt>>
-  /\ UNCHANGED <<written, lostRep, fin>>
+  /\ second' = IF op = OP_SECOND /\ second = 0 THEN called + 1 ELSE second
+  /\ UNCHANGED <<written, lostRep, fin, written2>>
 
 Ret(op, rc) ==
   /\ cur = op /\ cur' = 0 /\ rc = 0
   /\ fin' = (op = OP_FINI)
-  /\ UNCHANGED <<enabled, threaded, started, called, size, backlog, written, mayDrop, mdu, opt, lostRep>>
+  /\ UNCHANGED <<enabled, threaded, started, called, size, backlog, written, mayDrop, mdu, opt, lostRep, second, written2>>
 
 Write(m) ==
   /\ ~fin /\ started
@@ -67,16 +72,27 @@ Write(m) ==
   /\ (written # <<>> => m > written[Len(written)])
   /\ written' = Append(written, m) /\ backlog' = backlog - size[m]
   /\ mdu' = IF m \in mayDrop THEN mdu - 1 ELSE mdu
-  /\ UNCHANGED <<enabled, threaded, started, called, size, mayDrop, opt, lostRep, cur, fin>>
+  /\ UNCHANGED <<enabled, threaded, started, called, size, mayDrop, opt, lostRep, cur, fin, second, written2>>
+
+(* the second target's logger is called with message m: at most once per message, in the order logged *)
+Write2(m) ==
+  /\ ~fin /\ started /\ second > 0
+  /\ m \in 1..called
+  /\ (written2 # <<>> => m > written2[Len(written2)])
+  /\ written2' = Append(written2, m)
+  /\ UNCHANGED <<enabled, threaded, started, called, size, backlog, written, mayDrop, mdu, opt, lostRep, cur, fin, second>>
 
 Lost(n) ==
   /\ ~fin /\ n > 0 /\ lostRep' = lostRep + n
-  /\ UNCHANGED <<enabled, threaded, started, called, size, backlog, written, mayDrop, mdu, opt, cur, fin>>
+  /\ UNCHANGED <<enabled, threaded, started, called, size, backlog, written, mayDrop, mdu, opt, cur, fin, second, written2>>
 
 Unwritten == (1..called) \ Range(written)
 DeliveredAtFini ==
   fin => /\ Unwritten \subseteq (mayDrop \cup opt)
          /\ Cardinality(Unwritten \ opt) <= lostRep
+(* every message logged since the second target exists reached it as well (it is never reconfigured) *)
+Unwritten2 == IF second = 0 THEN {} ELSE (second..called) \ Range(written2)
+DeliveredAtFini2 == fin => Unwritten2 \subseteq mayDrop /\ Cardinality(Unwritten2) <= lostRep
 NeverOverReportedF == lostRep <= mdu
 CounterOK == fin => mdu = Cardinality(mayDrop \ Range(written))
 =============================================================================
